@@ -7,6 +7,7 @@ import GdVerif.Run.Views
 import GdVerif.Run.Games
 import GdVerif.Run.IdCheck
 import GdVerif.Run.Real
+import GdVerif.Run.Cli
 import GdVerif.Run.Quake
 import GdVerif.Run.GenQuake
 /-
@@ -15,7 +16,7 @@ import GdVerif.Run.GenQuake
 -/
 open Gd Gd.Run
 
-def allEntries : List (String × (List String → String)) := readerEntries ++ valveEntries ++ masterEntries ++ settingsEntries ++ viewEntries ++ gameEntries ++ idCheckEntries ++ realEntries ++ quakeEntries
+def allEntries : List (String × (List String → String)) := readerEntries ++ valveEntries ++ masterEntries ++ settingsEntries ++ viewEntries ++ gameEntries ++ idCheckEntries ++ realEntries ++ cliEntries ++ quakeEntries
 
 def runLine (line : String) : String :=
   match line.trimAscii.toString.splitOn " " with
